@@ -15,6 +15,10 @@ CLAIMED = {
          "Default passes on every path; isgood/raise discipline; index range and component count compared at each recorded offset; whole-FAB walk with exact comparisons to EOF; no swallowing handlers."),
  "C05": ("E1 abstract interpretation of the strainers + E2 task/scatter normal forms + E4 writer grammar",
          "Whole-FAB window at the recorded offset, kept-field selection, F-order serialisation, header count = components written, offset capture; names/indices lock-step; scatter map; global-header writer grammar vs reader oracle with exact float formats; level-header rewriter copies min/max rows as strings; CLI wiring; sinks at the output."),
+ "C06": ("E1 on the three workers + mode-enum / task-key / access-kind-vs-map-order rules + E4",
+         "Whole-FAB reads, side-coherent selectors and offsets, [v1 ++ v2] order, header count; produced vs dispatched modes; task keys per worker x generator; scan/seek access against scatter-map order; names/indices/min-max order; dominance of the structure validation; writer grammars."),
+ "C11": ("E1 on the five knives (incl. recipe-result rank) + names/count/order rules + E2 + E4",
+         "Header count = kept + new components on every path, rank agreement, [kept ++ new] order, min/max over the written array, no store through input views, names defined/counted/ordered like the data, offset-sorted scatter map, ordered pathos imap with serial twin, worker globals vs persistent pool, writer grammars."),
  "C13": ("E3 path-class abstract interpretation + exception-flow rules",
          "All 38 write sinks classified (never inside an input), default outputs are normalised siblings, read-only tools reach no sink, no sink under a completing broad handler, lazy pool results fetched, CLI handlers exit non-zero."),
  "C15": ("E1 scan invariant + pool/iterator protocol rules",
